@@ -1,7 +1,7 @@
 (* C11: no residual server state once a client's transport has ended.  Everything here is a
    consequence of the invariant of SrvInv.v; in particular nothing assumes that application
    handlers return normally. *)
-From VT Require Export Server.SrvInv Check.C11Check.
+From VT Require Export Server.SrvInv Check.C11Check Server.ServerX.
 From Coq Require Import Lia.
 Open Scope N_scope.
 
@@ -149,6 +149,58 @@ Proof. intros Hc Ho. apply Inv_c11_final. apply run_Inv; auto. apply Inv_init. Q
 
 Theorem C11_inv_lemma c ops : cfg_ok c -> Forall op_ok ops -> Inv (fst (run c srv_init ops)).
 Proof. intros Hc Ho. apply run_Inv; auto. apply Inv_init. Qed.
+
+(* ---- the re-entrant scenario of ServerX.v: an event handler that disconnects its own client ---- *)
+Lemma api_disconnect_pres c sid pns : cfg_ok c -> pres Inv anyeff (api_disconnect c sid pns).
+Proof.
+  intros Hc s HI. eapply hp_conseq; [apply api_disconnect_Inv; auto|].
+  intros r s' es H. split; [exact H|apply Forall_anyeff].
+Qed.
+
+Lemma handle_event_sd_Inv c eio pns id data : cfg_ok c -> pres Inv anyeff (handle_event_sd c eio pns id data).
+Proof.
+  intros Hc. unfold handle_event_sd. apply pres_bind; [apply pres_getS|]. intros s0.
+  apply pres_bind; [apply pres_lift|]. intros ea.
+  destruct (negb _); [apply pres_ret|].
+  destruct (sid_from_eio (mg s0) eio (ns_or_default pns)) as [sid|]; [|apply pres_ret].
+  apply pres_bind.
+  - apply pres_catch; [apply (trigger_event_J c Hc Inv Inv_Mid Inv_hstep)|].
+    intros x k Hx. destruct (handler_runs _ _ _ _ && _); [|discriminate]. injection Hx as <-.
+    apply pres_bind; [apply api_disconnect_pres; auto|]. intros _. apply pres_raise.
+  - intros r. apply pres_bind.
+    + destruct (handler_runs _ _ _ _ && _); [apply api_disconnect_pres; auto|apply pres_ret].
+    + intros _. destruct r as [v|]; [|apply pres_ret]. destruct id as [i|]; [|apply pres_ret]. apply send_packet_any.
+Qed.
+
+Theorem xstep_Inv c s x :
+  cfg_ok c -> (match x with Plain o => op_ok o | _ => True end) -> Inv s -> Inv (fst (xstep c s x)).
+Proof.
+  intros Hc Hx HI. destruct x as [o|eio payload tbl]; cbn [xstep]; [apply step_Inv; auto|].
+  destruct (existsb (str_eqb eio) (live s)) eqn:Ex; [|exact HI].
+  assert (Hlive : In eio (live s)).
+  { apply existsb_exists in Ex as (y & Hy & Hey). apply str_eqb_eq in Hey. subst. auto. }
+  assert (G : hp s (contain (handle_eio_message_sd c (table_loads tbl) eio payload)) (fun _ s' _ => Inv s')).
+  { apply hp_contain. unfold handle_eio_message_sd. apply hp_getS_bind.
+    assert (Hplain : hp s (handle_eio_message c (table_loads tbl) eio payload) (fun _ s' _ => Inv s'))
+      by (apply handle_eio_message_Inv; auto).
+    destruct (aget str_eqb (binpkt s) eio); [exact Hplain|].
+    destruct (decode_any c (table_loads tbl) payload) as [r|]; [|exact Hplain].
+    destruct (_ && _); [|exact Hplain].
+    eapply hp_conseq; [apply handle_event_sd_Inv; auto|]. intros ? ? ? [H _]. exact H. }
+  unfold hp in G. destruct (contain _ s) as [[s' es] r]. exact G.
+Qed.
+
+Lemma xrun_cons c s o ops :
+  xrun c s (o :: ops) = (fst (xrun c (fst (xstep c s o)) ops), snd (xstep c s o) :: snd (xrun c (fst (xstep c s o)) ops)).
+Proof. cbn [xrun]. destruct (xstep c s o) as [s1 e]. cbn [fst snd]. destruct (xrun c s1 ops). reflexivity. Qed.
+
+Theorem xrun_Inv c ops :
+  cfg_ok c -> Forall (fun x => match x with Plain o => op_ok o | _ => True end) ops ->
+  forall s, Inv s -> Inv (fst (xrun c s ops)).
+Proof.
+  intros Hc Hops. induction Hops as [|o ops Ho _ IH]; intros s HI; [exact HI|].
+  rewrite xrun_cons. cbn [fst]. apply IH. apply xstep_Inv; auto.
+Qed.
 
 (* a configuration without scripted actions is well formed, whatever its handlers raise *)
 Lemma cfg_ok_no_actions c : has_actions c = false -> cfg_ok c.
